@@ -448,7 +448,7 @@ func (c *Client) opendir(ctx context.Context, path string) (string, error) {
 		handle, _ := unmarshalString(data)
 		return handle, nil
 	case sshFxpStatus:
-		return "", normaliseError(unmarshalStatus(id, data))
+		return "", errorFromStatus(id, data)
 	default:
 		return "", unimplementedPacketErr(typ)
 	}
@@ -488,7 +488,7 @@ func (c *Client) Lstat(p string) (os.FileInfo, error) {
 		}
 		return fileInfoFromStat(attr, path.Base(p)), nil
 	case sshFxpStatus:
-		return nil, normaliseError(unmarshalStatus(id, data))
+		return nil, errorFromStatus(id, data)
 	default:
 		return nil, unimplementedPacketErr(typ)
 	}
@@ -517,7 +517,7 @@ func (c *Client) ReadLink(p string) (string, error) {
 		filename, _ := unmarshalString(data) // ignore dummy attributes
 		return filename, nil
 	case sshFxpStatus:
-		return "", normaliseError(unmarshalStatus(id, data))
+		return "", errorFromStatus(id, data)
 	default:
 		return "", unimplementedPacketErr(typ)
 	}
@@ -684,7 +684,7 @@ func (c *Client) open(path string, pflags uint32) (*File, error) {
 		handle, _ := unmarshalString(data)
 		return &File{c: c, path: path, handle: handle}, nil
 	case sshFxpStatus:
-		return nil, normaliseError(unmarshalStatus(id, data))
+		return nil, errorFromStatus(id, data)
 	default:
 		return nil, unimplementedPacketErr(typ)
 	}
@@ -728,7 +728,7 @@ func (c *Client) stat(path string) (*FileStat, error) {
 		attr, _, err := unmarshalAttrs(data)
 		return attr, err
 	case sshFxpStatus:
-		return nil, normaliseError(unmarshalStatus(id, data))
+		return nil, errorFromStatus(id, data)
 	default:
 		return nil, unimplementedPacketErr(typ)
 	}
@@ -752,7 +752,7 @@ func (c *Client) fstat(handle string) (*FileStat, error) {
 		attr, _, err := unmarshalAttrs(data)
 		return attr, err
 	case sshFxpStatus:
-		return nil, normaliseError(unmarshalStatus(id, data))
+		return nil, errorFromStatus(id, data)
 	default:
 		return nil, unimplementedPacketErr(typ)
 	}
@@ -786,7 +786,7 @@ func (c *Client) StatVFS(path string) (*StatVFS, error) {
 
 	// the resquest failed
 	case sshFxpStatus:
-		return nil, normaliseError(unmarshalStatus(id, data))
+		return nil, errorFromStatus(id, data)
 
 	default:
 		return nil, unimplementedPacketErr(typ)
@@ -953,7 +953,7 @@ func (c *Client) RealPath(path string) (string, error) {
 		filename, _ := unmarshalString(data) // ignore attributes
 		return filename, nil
 	case sshFxpStatus:
-		return "", normaliseError(unmarshalStatus(id, data))
+		return "", errorFromStatus(id, data)
 	default:
 		return "", unimplementedPacketErr(typ)
 	}
@@ -2238,6 +2238,16 @@ func (f *File) Sync() error {
 
 // normaliseError normalises an error into a more standard form that can be
 // checked against stdlib errors like io.EOF or os.ErrNotExist.
+// errorFromStatus returns the error carried by an SSH_FXP_STATUS response to a
+// request that is answered with a value (a handle, attributes, a name, ...) on
+// success. SSH_FX_OK is not a valid response to such a request.
+func errorFromStatus(id uint32, data []byte) error {
+	if err := normaliseError(unmarshalStatus(id, data)); err != nil {
+		return err
+	}
+	return errors.New("sftp: unexpected SSH_FX_OK status in response to a request for a value")
+}
+
 func normaliseError(err error) error {
 	switch err := err.(type) {
 	case *StatusError:
